@@ -12,11 +12,13 @@ cmake -G Ninja -B _build -DCMAKE_BUILD_TYPE=RelWithDebInfo -DCMAKE_C_FLAGS=-Wno-
 summ=$(ctest --test-dir _build -j8 --timeout 900 2>&1 | grep "tests passed" )
 extra=""
 grep -q pthread $out/demo$suf.c && extra="-lpthread"
-gcc -O1 $out/demo$suf.c -I _build/src/h3lib/include _build/lib/libh3.a -lm $extra -o demo_p 2>/dev/null || gcc -O1 $out/demo$suf.c -I _build/src/h3lib/include -I src/h3lib/include _build/lib/libh3.a -lm -lpthread -o demo_p 2>/dev/null
+lib=libh3.a
+grep -q test_prefix_ $out/demo$suf.c && lib=libh3WithTestAllocators.a
+gcc -O1 $out/demo$suf.c -I _build/src/h3lib/include _build/lib/$lib -lm $extra -o demo_p 2>/dev/null || gcc -O1 $out/demo$suf.c -I _build/src/h3lib/include -I src/h3lib/include _build/lib/$lib -lm -lpthread -o demo_p 2>/dev/null
 timeout 600 ./demo_p >/dev/null 2>&1; rc_p=$?
 git checkout -q -- .
 cmake --build _build >/dev/null 2>&1
-gcc -O1 $out/demo$suf.c -I _build/src/h3lib/include _build/lib/libh3.a -lm $extra -o demo_c 2>/dev/null || gcc -O1 $out/demo$suf.c -I _build/src/h3lib/include -I src/h3lib/include _build/lib/libh3.a -lm -lpthread -o demo_c 2>/dev/null
+gcc -O1 $out/demo$suf.c -I _build/src/h3lib/include _build/lib/$lib -lm $extra -o demo_c 2>/dev/null || gcc -O1 $out/demo$suf.c -I _build/src/h3lib/include -I src/h3lib/include _build/lib/$lib -lm -lpthread -o demo_c 2>/dev/null
 timeout 600 ./demo_c >/dev/null 2>&1; rc_c=$?
 rm -rf _build demo_p demo_c
 echo "$name: suite='$summ' demo_with_patch=$rc_p demo_clean=$rc_c"
